@@ -17,13 +17,15 @@ const (
 
 func init() {
 	Registry["C01"] = Spec{
-		Pkgs: map[string][]string{"v2": {"plan", "gqlds", "resolve", "postprocess"}},
+		Pkgs: map[string][]string{"v2": {"plan", "gqlds", "resolve", "postprocess"}, "execution": {"engine"}},
 		Run:  runC01,
 		Explanation: "Decides a thin structural slice of 'federated execution equals monolithic execution': every upstream operation the GraphQL data source emits passed, on every path that returns it, normalization and validation against that subgraph's own schema (the same document is normalized, validated and printed); " +
 			"every field the planner synthesises into the client operation (keys, @requires fields, __typename) is recorded in a skip list on all paths, every producer of such lists is consumed by the node-selection visitor, the response-shape visitor takes the list from the selection result, constructs response fields only for non-skipped refs and skips symmetrically on leave; " +
 			"the loader's fetch-kind dispatch covers every fetch implementation; every planner callback is registered with its walker. " +
 			"NOT decided (no honest structural proxy): data(gateway) == data(monolith), error equivalence, planning totality, field ownership of subgraph requests.",
 		Mutants: []Mutant{
+			{Name: "the config factory drops resolvable: false again (reverts part of the F84 fix)", File: "execution/engine/config_factory_federation.go", Rule: "C01-R14", Key: "Keys/DisableEntityResolver",
+				Old: "\t\t\tDisableEntityResolver: keyConfiguration.DisableEntityResolver,\n", New: ""},
 			{Name: "the field configuration is looked up by the response name (positive control of the response-name taint rule)", File: "v2/pkg/engine/datasource/graphql_datasource/graphql_datasource.go", Rule: "C01-R13", Key: "Planner.EnterField/schema-lookup-by-schema-name:ForTypeField",
 				Old: "\tfieldConfiguration := p.visitor.Config.Fields.ForTypeField(typeName, fieldName)\n\n\tfor i := range p.config.customScalarTypeFields {", New: "\tfieldConfiguration := p.visitor.Config.Fields.ForTypeField(typeName, p.visitor.Operation.FieldAliasOrNameString(ref))\n\n\tfor i := range p.config.customScalarTypeFields {"},
 			{Name: "@provides looked up by field name only (seeded change C01-22)", File: "v2/pkg/engine/plan/datasource_filter_collect_nodes_visitor.go", Rule: "C01-R9", Key: "hasProvidesConfiguration/field-name-lookup-also-compares-type-name",
@@ -448,6 +450,7 @@ func runC01(r *fw.Run) {
 	c01CoordinateCompleteness(r)
 	c01MergedScopeKeepsUnscoped(r)
 	c01ScopeMergedAtEveryElement(r)
+	c01ConfigFactoryCopiesWhatThePlannerReads(r)
 
 	r.Rule("C01-R11", "in the GraphQL data source planner the ref of an ast.Value is handed to an accessor of kind K only where the value's kind is known to be K (one frozen, reasoned exception)")
 	nKR := kindRefAgreement(r, "C01-R11", []string{"gqlds"}, map[string]string{
@@ -928,4 +931,118 @@ func elemOf(t types.Type) types.Type {
 		return s.Elem()
 	}
 	return nil
+}
+
+// c01ConfigFactoryCopiesWhatThePlannerReads (R14): the federation config factory turns the router configuration (protobuf
+// messages) into the planner's metadata structs, field by field, in hand-written literals. A field that both sides
+// declare under the same name and that the literal does not set is configuration the composition computed and the planner
+// reads, silently dropped on the way: the planner then plans as if it had not been said (a key declared
+// `resolvable: false` is used for an `_entities` fetch). For every literal of a struct of package plan that is built
+// inside a loop over a repeated field of a configuration message, each exported field name the message element and the
+// struct have in common is set in the literal. Two fields are exempt for two of the targets, with the reason the struct's
+// own documentation gives.
+func c01ConfigFactoryCopiesWhatThePlannerReads(r *fw.Run) {
+	p := r.Prog
+	r.Rule("C01-R14", "in the federation config factory every literal of a planner metadata struct built from a configuration message sets each exported field the message and the struct have in common by name")
+	exempt := map[string]string{
+		"Provides/DisableEntityResolver":     "plan.FederationFieldConfiguration documents the field as applicable to keys only",
+		"Provides/Conditions":                "conditions describe where an implicit key may be used; they apply to keys only",
+		"Requires/DisableEntityResolver":     "plan.FederationFieldConfiguration documents the field as applicable to keys only",
+		"Requires/Conditions":                "conditions describe where an implicit key may be used; they apply to keys only",
+		"Fields/SubscriptionFilterCondition": "subscription filters belong to event-driven (pubsub) data sources; this factory rejects every data source kind but GRAPHQL",
+		"RootNodes/ExternalFieldNames":       "the drop is asserted by the existing TestEngineConfigFactory_EngineConfiguration (its expected metadata has ExternalFieldNames nil although the router config carries `username`), copying the field fails that test; its run-time effect was reported by a sub-agent's harness and not reproduced here, so it is listed in DESIGN §9, not as a finding",
+		"ChildNodes/ExternalFieldNames":      "as RootNodes/ExternalFieldNames",
+	}
+	n := 0
+	for _, fi := range p.Funcs("engine") {
+		if !strings.HasPrefix(fi.Name(), "FederationEngineConfigFactory.") {
+			continue
+		}
+		info := fi.Info()
+		fw.WalkAll(fi.Decl.Body, func(nd ast.Node) bool {
+			rs, ok := nd.(*ast.RangeStmt)
+			if !ok || rs.Value == nil {
+				return true
+			}
+			vid, isID := rs.Value.(*ast.Ident)
+			if !isID || info.ObjectOf(vid) == nil {
+				return true
+			}
+			// element: pointer to a struct of another module (the configuration message)
+			et := info.TypeOf(vid)
+			pt, isPtr := et.(*types.Pointer)
+			if !isPtr {
+				return true
+			}
+			mnamed, isNamed := pt.Elem().(*types.Named)
+			if !isNamed || mnamed.Obj().Pkg() == nil || !strings.Contains(mnamed.Obj().Pkg().Path(), "/node/v1") {
+				return true
+			}
+			mst, isStruct := mnamed.Underlying().(*types.Struct)
+			if !isStruct {
+				return true
+			}
+			msgFields := map[string]bool{}
+			for i := 0; i < mst.NumFields(); i++ {
+				if mst.Field(i).Exported() {
+					msgFields[mst.Field(i).Name()] = true
+				}
+			}
+			// the target: the field of the metadata the literal is appended to (directly in the loop body)
+			for _, st := range rs.Body.List {
+				as, isAs := st.(*ast.AssignStmt)
+				if !isAs || len(as.Lhs) != 1 || len(as.Rhs) != 1 {
+					continue
+				}
+				call, isCall := ast.Unparen(as.Rhs[0]).(*ast.CallExpr)
+				if !isCall || fw.Builtin(info, call) != "append" || len(call.Args) != 2 {
+					continue
+				}
+				cl, isCL := ast.Unparen(call.Args[1]).(*ast.CompositeLit)
+				if !isCL {
+					continue
+				}
+				tnamed, isT := info.TypeOf(cl).(*types.Named)
+				if !isT || tnamed.Obj().Pkg() == nil || tnamed.Obj().Pkg().Path() != fw.PkgPath("plan") {
+					continue
+				}
+				tst, isTS := tnamed.Underlying().(*types.Struct)
+				if !isTS {
+					continue
+				}
+				target := ""
+				if fv, _ := fw.Field(info, as.Lhs[0]); fv != nil {
+					target = fv.Name()
+				} else if star, isStar := ast.Unparen(as.Lhs[0]).(*ast.StarExpr); isStar {
+					if fv, _ := fw.Field(info, star.X); fv != nil {
+						target = fv.Name()
+					}
+				}
+				set := map[string]bool{}
+				for _, el := range cl.Elts {
+					if kv, isKV := el.(*ast.KeyValueExpr); isKV {
+						if k, isK := kv.Key.(*ast.Ident); isK {
+							set[k.Name] = true
+						}
+					}
+				}
+				for i := 0; i < tst.NumFields(); i++ {
+					f := tst.Field(i)
+					if !f.Exported() || !msgFields[f.Name()] {
+						continue
+					}
+					n++
+					key := target + "/" + f.Name()
+					if why, isExempt := exempt[key]; isExempt && !set[f.Name()] {
+						r.Pass("C01-R14", key, p.Pos(cl.Pos()), tnamed.Obj().Name()+"."+f.Name()+" for "+target+" (exempt: "+why+")", false)
+						continue
+					}
+					r.Check(set[f.Name()], "C01-R14", key, p.Pos(cl.Pos()), "the "+tnamed.Obj().Name()+" literal for "+target+" copies "+f.Name()+" from the "+mnamed.Obj().Name()+" message",
+						"the router configuration carries "+mnamed.Obj().Name()+"."+f.Name()+" and the planner reads "+tnamed.Obj().Name()+"."+f.Name()+", but the literal built for "+target+" does not set it: what the composition computed is dropped on the way and the planner plans as if it had not been said")
+				}
+			}
+			return true
+		})
+	}
+	r.Expect("C01-R14", "common fields of configuration messages and planner metadata literals", n, 15)
 }
